@@ -25,7 +25,7 @@ var R = hx.NewRecorder("C15", "cases = (endpoint kind: GMSSL client | GMSSL-only
 	"oracle = Handshake() returns (quiescence of the in-memory transport turns waiting into EOF; a read-after-EOF counter catches spinning), returns an error for every true deviation, HandshakeComplete stays false, no panic; legal variations (fragmented or coalesced messages, unknown ticket) must still succeed; non-trivial = deviation applied after at least one valid message or in the first message; distinct by hash of the plan")
 
 func TestMain(m *testing.M) {
-	R.Require("junk_certificate_verify", "jcv_vers:300", "ecdhe_ske", "hello_ext_sweep", "dev:big_record", "replay_deep:gmclient", "replay_deep:tlsclient", "replay_deep:gmserver", "replay_deep:tlsserver", "replay_deep:autoserver", "replay_control", "replay:omit_msg", "replay:hello_ext", "replay:swap_msgs", "hello_vector_lengths", "dev:cke_ciphertext_byte", "dev:cert_list", "tls_scripted_server:control", "tls_scripted_server:version_above_offer", "tls_scripted_server:deviations", "short_messages_after_hello", "serverhello_version_sweep", "tls_resumption_deviation", "dev:inner_len", "dev:trailing", "dev:alert_flood", "inner_length_sweep", "peer_pressed_on_after_alert", "endpoint:gmclient", "endpoint:gmserver", "endpoint:autoserver", "endpoint:tlsserver", "endpoint:tlsclient", "vers_sweep_done", "dev:omit", "dev:repeat", "dev:retype", "dev:reorder", "dev:truncate", "dev:len_field", "dev:split", "dev:coalesce",
+	R.Require("junk_certificate_verify", "jcv_vers:300", "ecdhe_ske", "hello_ext_sweep", "dev:big_record", "replay_deep:gmclient", "replay_deep:tlsclient", "replay_deep:gmserver", "replay_deep:tlsserver", "replay_deep:autoserver", "replay_control", "replay:omit_msg", "replay:hello_ext", "replay:swap_msgs", "hello_vector_lengths", "dev:cke_ciphertext_byte", "dev:cert_list", "fallback_scsv", "tls_scripted_server:control", "tls_scripted_server:version_above_offer", "tls_scripted_server:deviations", "short_messages_after_hello", "serverhello_version_sweep", "tls_resumption_deviation", "dev:inner_len", "dev:trailing", "dev:alert_flood", "inner_length_sweep", "peer_pressed_on_after_alert", "endpoint:gmclient", "endpoint:gmserver", "endpoint:autoserver", "endpoint:tlsserver", "endpoint:tlsclient", "vers_sweep_done", "dev:omit", "dev:repeat", "dev:retype", "dev:reorder", "dev:truncate", "dev:len_field", "dev:split", "dev:coalesce",
 		"dev:oversize", "dev:ccs_early", "dev:appdata_early", "dev:alert_fatal", "dev:unknown_record", "dev:close", "dev:record_overflow", "replay_perturbed", "legal_must_succeed", "cke_1byte", "hostile_suites")
 	for d := 0; d <= 5; d++ {
 		R.Require(fmt.Sprintf("depth:%d", d))
@@ -1376,6 +1376,108 @@ func TestC15_ShortMessagesAfterHello(t *testing.T) {
 		R.Case(true, hx.HashKey("shortmsg", ep), "short_messages_after_hello", "endpoint:"+ep)
 	}
 	R.Subspace("handshake message types {0..25,67,254,255} x body lengths 0..6 x 3 fills right behind the hello, 8 endpoint kinds (quick: half of the grid)", n, hx.Thorough())
+}
+
+// TLS_FALLBACK_SCSV (RFC 7507) anywhere in the suite list of a ClientHello whose version is below the server's maximum is
+// a downgrade signal: the TLS-only and the auto-switch server answer with an inappropriate_fallback alert and send no
+// ServerHello, wherever in the list the value stands and whichever side's preference rules. At the server's maximum
+// version the value means nothing (control: the ServerHello comes).
+func TestC15_FallbackSCSV(t *testing.T) {
+	p := tlsx.GetPKI()
+	rec := record("tls")
+	first := wire.SplitRecords(rec.c2s)[0]
+	hello := first[5:]
+	// ClientHello: type(1) len(3) version(2) random(32) sid suites compression extensions
+	sidEnd := 4 + 2 + 32 + 1 + int(hello[38])
+	nsuites := int(hello[sidEnd])<<8 | int(hello[sidEnd+1])
+	suites := hello[sidEnd+2 : sidEnd+2+nsuites]
+	rest := hello[sidEnd+2+nsuites:]
+	build := func(vers uint16, pos int) []byte {
+		var sl []byte
+		scsv := []byte{0x56, 0x00}
+		switch pos {
+		case 0:
+			sl = append(append(sl, scsv...), suites...)
+		case 1:
+			sl = append(append(append(sl, suites[:2]...), scsv...), suites[2:]...)
+		case 2:
+			sl = append(append(sl, suites...), scsv...)
+		default:
+			sl = append(sl, suites...) // no SCSV
+		}
+		body := append([]byte{}, hello[4:sidEnd]...)
+		body[0], body[1] = byte(vers>>8), byte(vers)
+		body = append(body, byte(len(sl)>>8), byte(len(sl)))
+		body = append(body, sl...)
+		body = append(body, rest...)
+		msg := append([]byte{1, byte(len(body) >> 16), byte(len(body) >> 8), byte(len(body))}, body...)
+		return append([]byte{22, 3, 1, byte(len(msg) >> 8), byte(len(msg))}, msg...)
+	}
+	var n int64
+	for _, ep := range []string{"tlsserver", "autoserver_tls"} {
+		for _, prefer := range []bool{false, true} {
+			for _, vers := range []uint16{0x0301, 0x0302, 0x0303} {
+				for pos := 0; pos <= 3; pos++ {
+					var sc *gmtls.Config
+					seed := fmt.Sprint("scsv", ep, prefer, vers, pos)
+					if ep == "tlsserver" {
+						sc = tlsx.TLSServer(p, p.RSASrv, seed)
+					} else {
+						sc = tlsx.AutoServer(p, p.RSASrv, seed)
+					}
+					sc.PreferServerCipherSuites = prefer
+					hub := wire.NewHub()
+					cw, sw := hub.Pipe("client:1", "server:443")
+					conn := gmtls.Server(sw, sc)
+					var out []byte
+					var pn *hx.PanicInfo
+					d := hub.GoAll(func() {
+						pn = hx.Try(func() { conn.Handshake() })
+						conn.Close()
+					}, func() {
+						cw.Write(build(vers, pos))
+						cw.CloseWrite()
+						buf := make([]byte, 4096)
+						for {
+							k, err := cw.Read(buf)
+							out = append(out, buf[:k]...)
+							if err != nil {
+								return
+							}
+						}
+					})
+					<-d[0]
+					<-d[1]
+					if pn != nil {
+						t.Fatalf("%s PANICKED on a ClientHello with TLS_FALLBACK_SCSV: %v", ep, pn.Val)
+					}
+					recs := wire.SplitRecords(out)
+					sentHello := len(recs) > 0 && recs[0][0] == 22 && recs[0][5] == 2
+					desc := fmt.Sprintf("%s (PreferServerCipherSuites=%v), ClientHello version %04x, TLS_FALLBACK_SCSV at position %d of the suite list (3 = absent)", ep, prefer, vers, pos)
+					if pos <= 2 && vers < 0x0303 {
+						if sentHello || len(recs) == 0 || recs[0][0] != 21 || len(recs[0]) != 7 || recs[0][6] != 86 {
+							t.Fatalf("a downgrade signal was not answered with inappropriate_fallback (ServerHello sent: %v, first record %x): %s", sentHello, first5(recs), desc)
+						}
+					} else if !sentHello {
+						t.Fatalf("an acceptable ClientHello was not answered with a ServerHello (first record %x): %s", first5(recs), desc)
+					}
+					n++
+				}
+			}
+		}
+	}
+	R.Case(true, hx.HashKey("scsv"), "fallback_scsv")
+	R.Subspace("TLS_FALLBACK_SCSV first / in the middle / last / absent x ClientHello versions 0301..0303 x server preference x {TLS-only, auto-switch}", n, true)
+}
+
+func first5(recs [][]byte) []byte {
+	if len(recs) == 0 {
+		return nil
+	}
+	if len(recs[0]) > 7 {
+		return recs[0][:7]
+	}
+	return recs[0]
 }
 
 var lastWritten []byte // what the endpoint of the last replayAgainstW call put on the wire
